@@ -937,7 +937,14 @@ pub fn apply_fault(t: &mut SupplyTrace, plan: &Plan, f: F, r: &mut Rng, prefer_s
                         // a near-collision: another spelling that a normalising reader or writer might
                         // fold onto the original (trailing slash, "./", letter case, white space, ...)
                         let nc = crate::ceremony::near_collisions(old.as_str().unwrap_or(""));
-                        json!(r.pick(&nc).clone())
+                        // (where the string has a character with an escape spelling, or such a spelling, that swap
+                        // half of the time: it is one alternative among thirty otherwise)
+                        let esc = crate::ceremony::escape_respellings(old.as_str().unwrap_or(""));
+                        if !esc.is_empty() && r.chance(1, 2) {
+                            json!(r.pick(&esc).clone())
+                        } else {
+                            json!(r.pick(&nc).clone())
+                        }
                     } else {
                         mutate_leaf(r, &old)
                     };
